@@ -186,6 +186,7 @@ type gctx struct {
 	r       *common.Rand
 	g       int
 	private bool         // inside Q(...): no flags
+	noGet   bool         // imports without reading $m:x: the program stays in the class of C39_serialisable_commutative
 	defined map[int]bool // private variables currently defined
 	imports map[string]bool
 }
@@ -205,9 +206,15 @@ func (x *gctx) simple(depth int) string {
 			return fmt.Sprintf("o%d", r.Intn(50))
 		case 4, 5:
 			m := r.Intn(NFileMods)
+			if x.noGet {
+				return fmt.Sprintf("u%d", m)
+			}
 			return fmt.Sprintf("u%d,g%d", m, m)
 		case 6:
 			m := r.Intn(NBundled)
+			if x.noGet {
+				return fmt.Sprintf("b%d", m)
+			}
 			return fmt.Sprintf("b%d,h%d", m, m)
 		case 7:
 			return "s"
@@ -359,13 +366,26 @@ func genDyn(c *common.Ctx, emit func(fields ...string)) {
 			emit(append(head(), gs...)...)
 		}
 	}
-	// random programs
+	// family 4: programs of the class of C39_serialisable_commutative (imports — same, nested, circular,
+	// bundled, inside peach / run-parallel — counters and flags, no read of $m:x): proved serialisable on
+	// the concurrent model, judged here against the real interpreter
+	class := [][]string{
+		{"E(u2,i0.1)", "E(u3,i0.2)", "E(u2,u3,f0)", "E(u3,u2,f1)"},
+		{"E(u1,P3[u0,i1.1])", "E(b1,u4,f0);C(0.2)", "E(R[u0,i2.1|u1,i2.2])", "Q(u4,b0,L2[i3.1])"},
+		{"E(P4[u2,i0.1,o1])", "E(P4[u3,i0.1,o2])", "E(u0,u1,u2,u3,u4,b0,b1);K(3)", "E(b1,b0,u4,u3,u2,u1,u0);K(6)"},
+	}
+	for _, gs := range class {
+		for k := 0; k < c.Scale(2, 6); k++ {
+			emit(append(head(), gs...)...)
+		}
+	}
+	// random programs (every third one stays in the class: imports without reading $m:x)
 	n := c.Scale(30, 600)
 	for i := 0; i < n; i++ {
 		ng := r.Range(2, 8)
 		fields := head()
 		for g := 0; g < ng; g++ {
-			x := &gctx{r: r, g: g, defined: map[int]bool{}}
+			x := &gctx{r: r, g: g, defined: map[int]bool{}, noGet: i%3 == 0}
 			na := r.Range(1, 4)
 			var as []string
 			for a := 0; a < na; a++ {
